@@ -6,6 +6,10 @@ PROP = "C13"
 DRIVER = "c13"
 MODEL = "C13"
 MODEL_QUALID = "Model.Adaptive.run_script"
+# Flip to True once /repo's service.rs takes its atomics from verif::atomic (notes/hook-patches/0001): from then
+# on a tree whose service atomics are NOT instrumented is reported by the monitor instead of being skipped.
+REQUIRE_SERVICE_HOOK = True
+
 FORMAT = ("kinds 1..3 [kind 1=AimdController 2=Aimd 3=Vegas; p0..p6 (initial, min, max, increase_by|alpha, "
           "dec_num|beta, dec_den, latency threshold ns); npre; (code arg)*; nthreads; {ncalls; (code arg)*}*; "
           "nsched; thread-id*] calls 0 record_success(arg: latency ns) 1 record_failure 2 record_successes(arg) "
@@ -17,14 +21,27 @@ FORMAT = ("kinds 1..3 [kind 1=AimdController 2=Aimd 3=Vegas; p0..p6 (initial, mi
           "record_failure() 10 algorithm().record_success(0) (feedback not caused by this service's calls) -> per event "
           "[code; in_flight(); limit()] + after dropping everything [probe poll_ready code; in_flight(); limit()]; "
           "codes 10 Pending(inner) 11 Ready 12 Err 13 Pending(at limit) 20 created 21 id in use 26 inner.call() "
-          "panicked 30 Pending 31 Ok 32 Err 35 panicked 39 not alive 40 50 dropped 59 nothing 60 70 80 81")
+          "panicked 30 Pending 31 Ok 32 Err 35 panicked 39 not alive 40 50 dropped 59 nothing 60 70 80 81.  "
+          "kind 6: the events of kind 4 on AdaptiveService<_, Vegas> [6; initial; min; max; alpha; beta; 0; 0; ...]; "
+          "kinds 7 / 8: as 4 / 6 with the algorithm made by its builder, wrapped in the Algorithm enum, the service made "
+          "by AdaptiveLimiterLayer::layer.  kind 5 [5; initial; min; max; increase_by; dec_num; dec_den; 0; threads as in "
+          "kinds 1..3]: clones of one AdaptiveService<_, Aimd> on worker threads, one schedule entry = one atomic step "
+          "on in_flight / current_limit / the limit; calls 0 poll_ready (11/13) 1 call into slot arg (20) 2 finish slot "
+          "arg/10 with arg%10 = 0 ok (31) 1 err (32) 2 inner future panics (35) 3 dropped unpolled (50) 3 call with "
+          "panicking inner.call() (26) -> prelude results, per entry [op; completed result or -1; in_flight(); limit()], "
+          "per worker [steps; results], [in_flight(); limit()]; the trace [-5] = the service's atomics are not instrumented "
+          "on this tree (kind 5 cannot be scheduled)")
 RULE = ("algorithms: exhaustive schedules for 2-3 workers x <=2 feedback calls, random schedules for up to 4 "
         "workers x 6 calls (successes, slow successes, failures, record_successes, limit reads), limits at "
         "min/max, factors 0..1 and >1, Vegas with >= 10 warm-up samples so that adjust_limit runs, power-of-two "
         "RTTs; service: exhaustive event words up to length 3-5 over two call ids plus random histories with "
         "drops at every point, panicking inner futures and panicking inner.call(), slow responses around the latency threshold, inner "
         "readiness Pending/Err, feedback reaching the shared algorithm from outside (limit moves while calls are "
-        "in flight, poll_ready checked before any own call starts or completes); non-trivial = two workers interleaved, or a call ended by drop/panic/error")
+        "in flight, poll_ready checked before any own call starts or completes), the same over Vegas (latencies in ms "
+        "chosen so that binary64 and the exact instance agree, checked in Python), over the Algorithm enum and the "
+        "layer/builder route; clones on 2-3 worker threads (kind 5): exhaustive schedules for ready/call/finish "
+        "programs at limits 1-2, random ones with panics and drops; non-trivial = two workers interleaved, or a call "
+        "ended by drop/panic/error")
 TRUSTED = [
     "verif-hooks atomics (see C08); per-location sequential consistency; Vegas' cross-location reads (min_rtt, "
     "smoothed, sample_count, limit) are modelled as interleaved single-location operations",
@@ -36,9 +53,26 @@ TRUSTED = [
     "the semaphore/current_limit bookkeeping of AdaptiveService has no observable effect (no admission decision "
     "reads it) and is not modelled",
 ]
-ASSUMPTIONS = ["0 <= min_limit <= max_limit (AimdController::new / Vegas::new panic otherwise)"]
+ASSUMPTIONS = ["0 <= min_limit <= max_limit <= usize::MAX = 2^64-1 (AimdController::new / Vegas::new panic when "
+               "min > max); limits up to usize::MAX are inside the algorithm-level statements: the model saturates "
+               "at usize::MAX exactly where the code does (Vegas::adjust_limit since /repo 96e4b2b)",
+               "service level: AdaptiveService::new panics inside tokio's Semaphore::new for an initial limit above "
+               "usize::MAX >> 3 (and call()/completion in Semaphore::add_permits when the permits ever added exceed "
+               "it): a construction-time configuration error, excluded from the service-level quantifier -- "
+               "service scripts use limits far below 2^61"]
+U64 = (1 << 64) - 1
 
 S, F, N, LIM = 0, 1, 2, 3
+# kind 5 call codes
+RDY, CALL, FIN, CPANIC = 0, 1, 2, 3
+
+
+def model_input(s, impl_trace):
+    """kind 5 needs the service's in_flight / current_limit atomics under the scheduler; a driver built against
+    a tree without that hook answers [-5] and the model is asked the same question (kind 55)"""
+    if s and s[0] == 5 and list(impl_trace) == [-5]:
+        return [55] + list(s[1:])
+    return s
 
 
 def mk(kind, params, pre, progs, sched):
@@ -56,8 +90,11 @@ def mk(kind, params, pre, progs, sched):
     return s
 
 
-def mk_svc(params, evs):
-    s = [4] + list(params)
+SVC_KINDS = (4, 6, 7, 8)
+
+
+def mk_svc(params, evs, kind=4):
+    s = [kind] + list(params) + [0] * (7 - len(params))
     for e in evs:
         s += list(e)
     return s
@@ -65,7 +102,7 @@ def mk_svc(params, evs):
 
 def parse(s):
     kind, params = s[0], s[1:8]
-    if kind == 4:
+    if kind in SVC_KINDS:
         evs = [tuple(s[8 + 3 * i:11 + 3 * i]) for i in range((len(s) - 8) // 3)]
         return kind, params, evs, None, None
     pos = 8
@@ -103,6 +140,21 @@ def corpus():
     # Vegas pushed against max (equal RTTs: queue 0 < alpha) and against min (queue > beta)
     out.append(mk(3, [3, 1, 3, 3, 6], [(S, 1024)] * 10, [[(S, 1024), (LIM, 0)], [(S, 1024)]], [0, 1] * 12))
     out.append(mk(3, [2, 2, 9, 3, 6], [(S, 1024)] + [(S, 65536)] * 9, [[(S, 65536), (LIM, 0)], [(S, 65536)]], [0, 1] * 12))
+    # the usize boundary (review C13 item 1): initial = max = usize::MAX, ten equal RTTs (queue estimate 0 <
+    # alpha: increase). Before /repo 96e4b2b `current_limit + 1` overflowed: panic with overflow checks,
+    # wrap to 0 < min_limit without. Now saturating_add: the limit stays at usize::MAX.
+    eq10 = [(S, 1024)] * 10
+    out.append(mk(3, [U64, 1, U64, 3, 6], eq10, [[(LIM, 0)]], []))
+    out.append(mk(3, [U64, 1, U64, 3, 6], eq10, [[(S, 1024), (LIM, 0)], [(S, 1024)]], [0, 1] * 12))
+    out.append(mk(3, [U64 - 1, U64 - 2, U64, 3, 6], eq10, [[(S, 1024), (LIM, 0)], [(S, 1024), (S, 1024)]], [0, 1] * 12))
+    out.append(mk(3, [U64, U64, U64, 0, 0], eq10, [[(S, 1024), (F, 0)], [(S, 1024), (LIM, 0)]], [0, 1, 1, 0] * 6))
+    # ... and huge limits pushed down again (queue estimate >> beta) and halved
+    out.append(mk(3, [U64, 1, U64, 3, 6], [(S, 1024)] + [(S, 65536)] * 9, [[(S, 65536), (LIM, 0)], [(F, 0), (LIM, 0)]], [0, 1] * 12))
+    # AimdController at the boundary: saturating_add / saturating_mul (factor 0: the decrease is exact)
+    out.append(mk(1, [U64, 0, U64, 1, 0, 1], [(S, 0)], [[(S, 0), (LIM, 0)], [(N, 5), (LIM, 0)]], [0, 1, 0, 1, 0, 1]))
+    out.append(mk(1, [U64 - 3, 1, U64, 1 << 62, 0, 1], [], [[(N, 5), (LIM, 0)], [(S, 0), (LIM, 0)]], [0, 1, 0, 1, 0, 1]))
+    out.append(mk(1, [5, 1, U64, U64, 0, 1], [(S, 0), (LIM, 0), (F, 0)], [[(N, U64), (LIM, 0)], [(S, 0), (F, 0)]], [0, 1, 0, 1, 0, 1, 1]))
+    out.append(mk(2, [U64, U64 - 1, U64, 3, 0, 1, 1000], [(S, 5)], [[(S, 500), (LIM, 0)], [(S, 1001), (S, 1)]], [0, 1, 0, 1, 0, 1, 1]))
     # the service: two calls cancelled while in flight (the upstream defect shape), limit 2
     out.append(mk_svc([2, 1, 2, 1, 1, 2, 100],
                       [(1, 0, 0), (2, 0, 0), (1, 0, 0), (2, 1, 0), (1, 0, 0), (3, 0, 0), (3, 1, 0),
@@ -130,6 +182,36 @@ def corpus():
     # inner readiness is passed through only below the limit
     out.append(mk_svc([1, 1, 3, 1, 1, 2, 100],
                       [(7, 1, 0), (1, 0, 0), (7, 2, 0), (1, 0, 0), (7, 0, 0), (2, 0, 0), (1, 0, 0), (7, 1, 0), (1, 0, 0)]))
+    # ---- the service over Vegas (kind 6), and over the Algorithm enum through builder + layer (7 Aimd, 8 Vegas)
+    def one(a, ms, o=0):
+        return [(1, 0, 0), (2, a, 0), (6, ms, 0), (4, a, o), (3, a, 0)]
+    warm = [e for a in range(10) for e in one(a, 2)]
+    slow = one(10, 64) + one(11, 64)
+    for k in (6, 8):
+        out.append(mk_svc([3, 1, 5, 3, 6], warm + slow + [(9, 0, 0), (1, 0, 0)], k))
+        # cancelled and panicking calls under Vegas: the slots come back, the limit is untouched
+        out.append(mk_svc([2, 1, 5, 3, 6], [(2, 0, 0), (2, 1, 0), (1, 0, 0), (5, 0, 0), (4, 1, 2), (3, 1, 0), (1, 0, 0),
+                                            (8, 2, 0), (1, 0, 0)], k))
+        # limit pushed against max (equal latencies) and halved by failures down to min
+        out.append(mk_svc([4, 2, 5, 3, 6], [e for a in range(12) for e in one(a, 4)]
+                          + [e for a in range(12, 16) for e in one(a, 4, 1)], k))
+    out.append(mk_svc([2, 1, 2, 1, 1, 2, 100],
+                      [(1, 0, 0), (2, 0, 0), (1, 0, 0), (2, 1, 0), (1, 0, 0), (3, 0, 0), (3, 1, 0),
+                       (5, 0, 0), (5, 1, 0), (1, 0, 0)], 7))
+    out.append(mk_svc([4, 1, 8, 1, 1, 2, 10],
+                      [(2, 0, 0), (6, 11, 0), (4, 0, 0), (3, 0, 0), (2, 1, 0), (6, 10, 0), (4, 1, 0), (3, 1, 0)], 7))
+    # ---- clones of one service on worker threads (kind 5; the leading -1 entry only takes a snapshot)
+    # limit 1: worker 0 is admitted and calls; worker 1's check, made while that call is in flight, is refused
+    out.append(mk(5, [1, 1, 1, 1, 1, 2], [], [[(RDY, 0), (CALL, 0), (FIN, 0)], [(RDY, 0), (RDY, 0)]],
+                  [-1, 0, 0, 0, 0, 0, 1, 1, 0, 0, 0, 0, 0, 0, 1, 1]))
+    # two completions interleaved step by step (a release that is load;store would lose a decrement)
+    out.append(mk(5, [2, 1, 2, 1, 1, 2], [], [[(CALL, 0), (FIN, 0), (RDY, 0)], [(CALL, 0), (FIN, 1), (RDY, 0)]],
+                  [-1] + [0, 1] * 12))
+    out.append(mk(5, [2, 1, 2, 1, 1, 2], [], [[(CALL, 0), (FIN, 3), (RDY, 0)], [(CALL, 0), (FIN, 2), (RDY, 0)]],
+                  [-1, 0, 0, 0, 1, 1, 1, 0, 1, 0, 1, 0, 1]))
+    # a synchronous panic in inner.call() races with a readiness check of the other clone
+    out.append(mk(5, [1, 1, 2, 1, 1, 2], [(RDY, 0)], [[(CPANIC, 0), (RDY, 0)], [(RDY, 0), (CALL, 0), (FIN, 0)]],
+                  [-1, 0, 1, 1, 0, 0, 1, 1, 1]))
     return out
 
 
@@ -166,6 +248,38 @@ def rand_ctl_cfg(rng):
 
 RTTS = [1 << k for k in range(10, 21)]
 
+BIGLIM = [U64, U64 - 1, 1 << 63, (1 << 53) + 1, 1 << 32]
+
+
+def rand_big(rng, kind, nth):
+    """limits at the usize boundary: the saturating adds/multiplications of the controller and of Vegas;
+    decrease factor 0 (exact in binary64 for every limit)"""
+    mx = rng.choice(BIGLIM)
+    mn = rng.choice([0, 1, mx - 1, mx - 2, mx])
+    init = rng.choice([mx, mx, mx - 1, mn, U64])
+    if kind == 3:
+        params = [init, mn, mx, rng.choice([0, 1, 3]), rng.choice([3, 6, 1])]
+        if rng.random() < 0.6:    # equal RTTs: increase against max
+            base = rng.choice(RTTS[:6])
+            alpha = [(S, base)] * 4 + [(F, 0), (LIM, 0)]
+            pre = [(S, base)] * rng.choice([9, 10, 12])
+        else:                     # queue estimate far above beta: decrease
+            alpha = [(S, rng.choice(RTTS[8:])) for _ in range(4)] + [(F, 0), (LIM, 0)]
+            pre = [(S, RTTS[0])] + [(S, RTTS[10])] * rng.choice([8, 9, 11])
+        per_call = 8
+    else:
+        inc = rng.choice([0, 1, 2, 1 << 62, U64, mx])
+        params = [init, mn, mx, inc, 0, 1] + ([1000] if kind == 2 else [])
+        if kind == 1:
+            alpha = [(S, 0), (S, 0), (F, 0), (N, rng.choice([0, 1, 3, 1000, U64])), (LIM, 0)]
+        else:
+            alpha = [(S, 500), (S, 1000), (S, 1001), (F, 0), (LIM, 0)]
+        pre = [rng.choice(alpha[:3]) for _ in range(rng.choice([0, 0, 2]))]
+        per_call = 3
+    progs = [[rng.choice(alpha) for _ in range(rng.randint(1, 5))] for _ in range(nth)]
+    total = sum(len(p) for p in progs) * per_call
+    return mk(kind, params, pre, progs, rand_sched(rng, nth, total))
+
 SVC_ALPHA = [(1, 0, 0), (2, 0, 0), (3, 0, 0), (4, 0, 0), (4, 0, 1), (4, 0, 2), (5, 0, 0),
              (2, 1, 0), (3, 1, 0), (4, 1, 0), (5, 1, 0), (8, 2, 0), (9, 0, 0), (10, 0, 0)]
 
@@ -179,12 +293,15 @@ def rand_service(rng):
     n = rng.randint(3, 40)
     ids = rng.randint(1, 8)
     evs = []
+    polite = rng.random() < 0.5      # every call() is preceded by a readiness check
     for _ in range(n):
         x = rng.random()
         a = rng.randrange(ids)
         if x < 0.15:
             evs.append((1, 0, 0))
         elif x < 0.35:
+            if polite:
+                evs.append((1, 0, 0))
             evs.append((2, a, 0))
         elif x < 0.55:
             evs.append((3, a, 0))
@@ -197,6 +314,8 @@ def rand_service(rng):
         elif x < 0.96:
             evs.append((7, rng.choice([0, 0, 1, 2]), 0))
         elif x < 0.98:
+            if polite:
+                evs.append((1, 0, 0))
             evs.append((8, a, 0))
         else:
             evs.append((rng.choice([9, 10]), 0, 0))
@@ -233,6 +352,141 @@ def ext_feedback_service(rng):
             evs.append((2, nxt, 0)); nxt += 1
         evs.append((1, 0, 0))
     return mk_svc([init, mn, mx, inc, num, den, 100000], evs)
+
+
+# ---- Vegas under the service: latencies are whole ms; keep a script only when IEEE binary64 (what the code
+# computes) and the model's exact integer instance agree at every feedback (checked with Python floats)
+def svc_feedback(evs):
+    """the feedback the service gives its algorithm, in order: ('ok', latency_ms) | ('err',) from the script alone"""
+    now, start, sent, live, used, fb = 0, {}, {}, set(), set(), []
+    for op, a, b in evs:
+        a = max(a, 0)
+        if op == 2:
+            if a not in used:
+                used.add(a); live.add(a); start[a] = now
+        elif op == 3:
+            if a in live and a in sent:
+                live.discard(a)
+                if sent[a] == 0:
+                    fb.append(("ok", now - start[a]))
+                elif sent[a] == 1:
+                    fb.append(("err",))
+        elif op == 4:
+            sent.setdefault(a, b if b in (0, 1) else 2)
+        elif op == 5:
+            live.discard(a)
+        elif op == 6:
+            now += max(a, 0)
+        elif op == 8 or op not in (1, 7, 9, 10):
+            used.add(a)
+        elif op == 9:
+            fb.append(("err",))
+        elif op == 10:
+            fb.append(("ok", 0))
+    return fb
+
+
+def vegas_exact(params, evs):
+    init, mn_l, mx_l, alpha, beta = params[:5]
+    lim = min(max(init, mn_l), mx_l)
+    mn, sm, cnt = U64, 0, 0
+    for f in svc_feedback(evs):
+        if f[0] == "err":
+            lim = max(lim // 2, mn_l)
+            continue
+        rtt = f[1] * 1000000
+        if rtt < mn:
+            mn = rtt
+        if sm == 0:
+            sm = rtt
+        else:
+            exact = (rtt + sm) // 2
+            if int(0.5 * float(rtt) + (1.0 - 0.5) * float(sm)) != exact:
+                return False
+            sm = exact
+        cnt += 1
+        if cnt < 10 or mn == U64 or mn == 0 or sm == 0:
+            continue
+        if sm > mn:
+            q = ((sm - mn) * lim) // mn
+            if int(float(sm - mn) / float(mn) * float(lim)) != q:
+                return False
+        else:
+            q = 0
+        if q < alpha:
+            lim = min(lim + 1, mx_l)
+        elif q > beta:
+            lim = max(max(lim - 1, 0), mn_l)
+    return True
+
+
+def rand_vegas_service(rng, kind):
+    mx = rng.choice([2, 3, 5, 8])
+    mn = rng.choice([0, 1, 1, mx - 1])
+    init = rng.choice([mn, mx, max(mn, 2), (mn + mx) // 2])
+    alpha, beta = rng.choice([(3, 6), (1, 3), (0, 1), (3, 3)])
+    base = rng.choice([1, 2, 4, 8])
+    lats = [base] * 4 + [base * 2, base * 4, base * 16, base * 64, 0]
+    evs, nxt, live = [], 0, []
+    for _ in range(rng.randint(8, 40)):
+        x = rng.random()
+        if x < 0.15:
+            evs.append((1, 0, 0))
+        elif x < 0.5 or not live:
+            if rng.random() < 0.7:
+                evs.append((1, 0, 0))
+            evs.append((2, nxt, 0)); live.append(nxt); nxt += 1
+            if nxt >= 24:
+                break
+        elif x < 0.85:
+            a = live.pop(rng.randrange(len(live)))
+            evs += [(6, rng.choice(lats), 0), (4, a, rng.choice([0, 0, 0, 0, 1, 2])), (3, a, 0)]
+        elif x < 0.92:
+            a = live.pop(rng.randrange(len(live)))
+            evs.append((5, a, 0))
+        elif x < 0.96:
+            evs.append((rng.choice([9, 10]), 0, 0)); evs.append((1, 0, 0))
+        else:
+            evs.append((8, nxt, 0)); nxt += 1
+    params = [init, mn, mx, alpha, beta]
+    if not vegas_exact(params, evs):
+        return None
+    return mk_svc(params, evs, kind)
+
+
+# ---- clones on worker threads (kind 5)
+def clone_prog(rng, ncalls):
+    """a well-formed worker program: a slot is free when it is used, every future is finished"""
+    prog, live = [], []
+    free = [0, 1, 2, 3]
+    for _ in range(ncalls):
+        x = rng.random()
+        if x < 0.3:
+            prog.append((RDY, 0))
+        elif x < 0.6 and free:
+            if rng.random() < 0.6:
+                prog.append((RDY, 0))
+            sl = free.pop(0); live.append(sl); prog.append((CALL, sl))
+        elif x < 0.92 and live:
+            sl = live.pop(rng.randrange(len(live))); free.append(sl)
+            prog.append((FIN, sl * 10 + rng.choice([0, 0, 0, 1, 2, 3])))
+        else:
+            prog.append((CPANIC, 0))
+    for sl in live:
+        prog.append((FIN, sl * 10 + rng.choice([0, 1, 2, 3])))
+    return prog or [(RDY, 0)]
+
+
+def rand_clones(rng):
+    nth = rng.randint(2, 3)
+    mx = rng.choice([1, 2, 2, 3])
+    mn = rng.choice([0, 1, mx])
+    init = rng.choice([mn, mx, mx])
+    num, den = rng.choice([(1, 2), (0, 1), (3, 4), (1, 1)])
+    progs = [clone_prog(rng, rng.randint(2, 7)) for _ in range(nth)]
+    pre = rng.choice([[], [], [(RDY, 0)], [(CALL, 0)], [(CALL, 0), (FIN, 0)], [(CPANIC, 0)]])
+    total = sum(8 if c[0] == FIN else 4 for p in progs for c in p)
+    return mk(5, [init, mn, mx, rng.choice([1, 1, 2]), num, den], pre, progs, [-1] + rand_sched(rng, nth, total))
 
 
 def generate(rng, tier):
@@ -284,6 +538,9 @@ def generate(rng, tier):
     for _ in range(n):
         nth = rng.randint(2, 4)
         kind = rng.choice([1, 2, 3, 3])
+        if rng.random() < 0.08:
+            out.append(rand_big(rng, kind, nth))
+            continue
         if kind == 1:
             params = rand_ctl_cfg(rng)
             alpha = [(S, 0), (S, 0), (F, 0), (F, 0), (N, rng.choice([0, 1, 3, 1000])), (LIM, 0)]
@@ -319,6 +576,29 @@ def generate(rng, tier):
         out.append(rand_service(rng))
     for _ in range(8000 if thorough else 600):
         out.append(ext_feedback_service(rng))
+    # the same event machine over the Algorithm enum / builder / layer route (kind 7) and over Vegas (6, 8)
+    for _ in range(3000 if thorough else 250):
+        sc = rand_service(rng) if rng.random() < 0.6 else ext_feedback_service(rng)
+        out.append([7] + sc[1:])
+    for k in range(1, 3):
+        for w in itertools.product(SVC_ALPHA, repeat=k):
+            out.append(mk_svc([1, 1, 2, 3, 6], w, 6))
+    for _ in range(12000 if thorough else 700):
+        sc = rand_vegas_service(rng, rng.choice([6, 6, 8]))
+        if sc is not None:
+            out.append(sc)
+    # clones on worker threads: exhaustive schedules for two clones at limit 1 and 2
+    cl_progs = [[(RDY, 0), (CALL, 0), (FIN, 0)], [(CALL, 0), (FIN, 3)], [(RDY, 0), (RDY, 0)], [(CALL, 0), (FIN, 1)],
+                [(CPANIC, 0), (RDY, 0)]]
+    L = 9 if thorough else 6
+    for lim in (1, 2):
+        for p0 in cl_progs:
+            for p1 in cl_progs:
+                ws = list(words(2, L))
+                for w in (ws if thorough else rng.sample(ws, 24)):
+                    out.append(mk(5, [lim, 1, 2, 1, 1, 2], [], [p0, p1], [-1] + list(w) + [0, 1] * 4))
+    for _ in range(6000 if thorough else 500):
+        out.append(rand_clones(rng))
     return out
 
 
@@ -378,9 +658,18 @@ def monitor_alg(s, t):
     return None
 
 
+def unannounced_call(evs):
+    """a call() that is not directly preceded by a readiness check: a caller outside the Tower contract"""
+    return any(e[0] in (2, 8) and (k == 0 or evs[k - 1][0] != 1) for k, e in enumerate(evs))
+
+
 def monitor_svc(s, t):
     kind, params, evs, _, _ = parse(s)
     if len(t) != 3 * len(evs) + 3:
+        if list(t) == [-999] and unannounced_call(evs):
+            # the property quantifies over callers that check readiness; an implementation that rejects (panics on)
+            # a call() without a preceding poll_ready is outside it -- the trace comparison reports the difference
+            return None
         return "malformed or panicking run: %s" % t[:12]
     init, mn, mx = params[0], params[1], params[2]
     live = set()
@@ -450,17 +739,167 @@ def monitor_svc(s, t):
     return None
 
 
+def split_clones(s, t):
+    kind, params, pre, progs, sched = parse(s)
+    n = len(sched)
+    need = len(pre) + 4 * n + sum(1 + len(p) for p in progs) + 2
+    if len(t) != need:
+        return None
+    pre_rets = t[:len(pre)]
+    t = t[len(pre):]
+    entries = [t[4 * i:4 * i + 4] for i in range(n)]
+    pos = 4 * n
+    per = []
+    for p in progs:
+        per.append((t[pos], t[pos + 1:pos + 1 + len(p)]))
+        pos += 1 + len(p)
+    return entries, per, t[pos:pos + 2], pre_rets
+
+
+INF = float("inf")
+
+
+def monitor_clones(s, t):
+    """kind 5: the property for clones of one service used from several threads. Every call of a worker occupies
+    an interval (invoked when the previous one returned .. the atomic step at which it returned); a future is
+    CERTAINLY in flight between the return of its call() and the invocation of its finish, POSSIBLY in flight
+    between the invocation of call() and the return of the finish.
+      * in_flight() read after every step lies between the two counts; when everything has returned it is exactly
+        futures created - futures finished (0 once nothing is running);
+      * a readiness check that was Ready although limit calls were certainly in flight during its whole interval
+        admitted a caller it must not admit; one that was Pending although fewer than limit calls were possibly in
+        flight during its whole interval refused readiness below the limit (the limit may move during the check,
+        and the check reads limit and counter at two instants: any limit value and any count of the interval
+        may explain the decision);
+      * min <= limit() <= max after every step."""
+    if list(t) == [-5]:
+        return "the service's in_flight/current_limit atomics are not instrumented on this tree" if REQUIRE_SERVICE_HOOK else None
+    kind, params, pre, progs, sched = parse(s)
+    sp = split_clones(s, t)
+    if sp is None:
+        return "malformed or panicking run: %s" % t[:12]
+    entries, per, final, pre_rets = sp
+    mn, mx = params[1], params[2]
+    want = {0: (31,), 1: (32,), 2: (35,), 3: (50,)}
+
+    def bad(c, r):
+        if c[0] == RDY:
+            return r not in (11, 13)
+        if c[0] == CALL:
+            return r != 20
+        if c[0] == FIN:
+            return r not in want.get(c[1] % 10, (35,))
+        return r != 26
+    # intervals of all calls: (worker, index, call, ret, inv, res); the prelude ran alone before everything
+    calls = []
+    for i, (c, r) in enumerate(zip(pre, pre_rets)):
+        if bad(c, r):
+            return "prelude call %s returned %d" % (c, r)
+        calls.append((len(progs), i, c, r, -100000 + 4 * i, -100000 + 4 * i + 2))
+    n = len(sched)
+    idx = [0] * len(progs)
+    inv = [-1] * len(progs)
+    for k, (op, done, infl, lim) in enumerate(entries):
+        tid = sched[k]
+        if op == 0:
+            if done != -1:
+                return "skipped entry %d reports a completed call" % k
+        else:
+            if not (0 <= tid < len(progs)) or idx[tid] >= len(progs[tid]):
+                return "entry %d: worker %d stepped although it has no call left" % (k, tid)
+            if done != -1:
+                c = progs[tid][idx[tid]]
+                if per[tid][1][idx[tid]] != done:
+                    return "worker %d call %d: per-step completion %d != reported result %d" % (
+                        tid, idx[tid], done, per[tid][1][idx[tid]])
+                if bad(c, done):
+                    return "worker %d: call %s returned %d" % (tid, c, done)
+                calls.append((tid, idx[tid], c, done, inv[tid], 4 * k + 2))
+                idx[tid] += 1
+                inv[tid] = 4 * k + 3
+        if not (mn <= lim <= mx):
+            return "limit %d outside [%d, %d] after entry %d" % (lim, mn, mx, k)
+    for tid, p in enumerate(progs):
+        base = 4 * n + 10 + 1000 * tid
+        for j in range(idx[tid], len(p)):
+            r = per[tid][1][j]
+            if bad(p[j], r):
+                return "worker %d: call %s returned %d" % (tid, p[j], r)
+            calls.append((tid, j, p[j], r, inv[tid], base + 2))
+            inv[tid] = base + 3
+            base += 4
+    # futures: (invocation of call(), return of call(), invocation of the finish, return of the finish)
+    futs, maybe = [], []
+    slot = {}
+    for (tid, j, c, r, a, b) in sorted(calls, key=lambda x: x[5]):
+        if c[0] == CALL:
+            slot[(tid, c[1] % 4)] = len(futs)
+            futs.append([a, b, INF, INF])
+        elif c[0] == FIN:
+            f = slot.pop((tid, (c[1] // 10) % 4), None)
+            if f is None:
+                return "worker %d finishes a future it does not hold (script not well-formed)" % tid
+            futs[f][2], futs[f][3] = a, b
+        elif c[0] == CPANIC:
+            maybe.append((a, b))
+
+    def certain(at):
+        return sum(1 for f in futs if f[1] < at < f[2])
+
+    def possible(at):
+        return sum(1 for f in futs if f[0] < at < f[3]) + sum(1 for (a, b) in maybe if a < at < b)
+    for k, (op, done, infl, lim) in enumerate(entries):
+        at = 4 * k + 4
+        lo, hi = certain(at), possible(at)
+        if not (lo <= infl <= hi):
+            return "after entry %d in_flight() = %d but between %d and %d calls are in flight" % (k, infl, lo, hi)
+    live_end = sum(1 for f in futs if f[3] == INF)
+    if final[0] != live_end:
+        return "everything returned, %d futures not finished, in_flight() = %d" % (live_end, final[0])
+    if not (mn <= final[1] <= mx):
+        return "final limit %d outside [%d, %d]" % (final[1], mn, mx)
+    # readiness decisions whose whole interval lies inside the scheduled part
+    for (tid, j, c, r, a, b) in calls:
+        if c[0] != RDY or tid == len(progs) or b > 4 * n or a < -1:
+            continue
+        k1 = (b - 2) // 4                       # the entry at which it returned
+        k0 = 0 if a == -1 else (a - 3) // 4     # state after entry k0 holds when it is invoked
+        if a == -1 and (not entries or entries[0][0] != 0):
+            continue                            # no snapshot of the state before the first step
+        ks = range(k0, k1)
+        if not ks:
+            continue
+        # the check reads the limit and the counter at two instants of its interval (in either order): a decision
+        # is wrong only if NO limit value and NO count seen during the interval explain it
+        lims = [entries[k][3] for k in ks]
+        if r == 11 and min(certain(4 * k + 4) for k in ks) >= max(lims):
+            return ("worker %d call %d: poll_ready was Ready although at least limit calls were in flight during "
+                    "the whole check (entries %d..%d)" % (tid, j, k0, k1))
+        if r == 13 and max(possible(4 * k + 4) for k in ks) < min(lims):
+            return ("worker %d call %d: poll_ready was Pending although fewer than limit calls were in flight "
+                    "during the whole check (entries %d..%d)" % (tid, j, k0, k1))
+    return None
+
+
 def monitor(s, t):
     """Independent restatement of C13 over the implementation's trace."""
-    if s[0] == 4:
+    if s[0] in SVC_KINDS:
         return monitor_svc(s, t)
+    if s[0] == 5:
+        return monitor_clones(s, t)
     return monitor_alg(s, t)
 
 
 def nontrivial(s, t):
-    if s[0] == 4:
+    if s[0] in SVC_KINDS:
         codes = t[0::3]
         return any(c in (32, 35, 50, 13, 80, 81) for c in codes)
+    if s[0] == 5:
+        sp = split_clones(s, t)
+        if sp is None:
+            return False
+        sched = parse(s)[4]
+        return len({sched[k] for k, e in enumerate(sp[0]) if e[0] != 0}) >= 2
     kind, params, pre, progs, sched = parse(s)
     sp = split_trace(s, t)
     if sp is None:
@@ -469,9 +908,27 @@ def nontrivial(s, t):
 
 
 def classify(s, t):
-    if s[0] == 4:
+    if s[0] == 5:
+        if list(t) == [-5]:
+            return ["service_clones_threads", "service_atomics_not_instrumented"]
+        out = ["service_clones_threads"]
+        sp = split_clones(s, t)
+        if sp is None:
+            return out + ["malformed"]
+        entries, per, final, pre_rets = sp
+        rets = [r for (st, rs) in per for r in rs]
+        for c, name in ((13, "clone_refused_at_limit"), (35, "inner_panic"), (50, "dropped_in_flight"),
+                        (26, "sync_call_panic"), (31, "ok"), (32, "inner_err")):
+            if c in rets:
+                out.append(name)
+        if any(e[2] >= 2 for e in entries):
+            out.append("two_or_more_in_flight")
+        if any(e[2] > e[3] for e in entries):
+            out.append("in_flight_above_limit(check-then-act)")
+        return out
+    if s[0] in SVC_KINDS:
         codes = t[0::3]
-        out = ["service"]
+        out = ["service" if s[0] == 4 else {6: "service_vegas", 7: "service_enum_aimd_layer", 8: "service_enum_vegas_layer"}[s[0]]]
         for c, name in ((13, "pending_at_limit"), (10, "inner_pending"), (12, "inner_error"), (35, "inner_panic"),
                         (32, "inner_err"), (31, "ok"), (50, "dropped_in_flight"), (26, "sync_call_panic")):
             if c in codes[:-1]:
@@ -523,10 +980,15 @@ def classify(s, t):
 
 
 def shrink(s):
-    if s[0] == 4:
+    if s[0] in SVC_KINDS:
         kind, params, evs, _, _ = parse(s)
         for i in range(len(evs)):
-            yield mk_svc(params, evs[:i] + evs[i + 1:])
+            yield mk_svc(params, evs[:i] + evs[i + 1:], kind)
+        return
+    if s[0] == 5:
+        kind, params, pre, progs, sched = parse(s)
+        for i in range(1, len(sched)):
+            yield mk(kind, params[:6], pre, progs, sched[:i] + sched[i + 1:])
         return
     kind, params, pre, progs, sched = parse(s)
     for i in range(len(sched)):
